@@ -26,6 +26,7 @@ class FnSpec:
         self.tail = []
         self.after = []      # (regex, text)
         self.before = []     # (regex, text)
+        self.closures = {}   # ordinal -> verdict spec body for a lifted validator closure
         self.loops = {}      # ordinal -> text
         self.loopbody = {}   # ordinal -> ghost text at start of loop body
         self.loopend = {}    # ordinal -> ghost text at end of loop body
@@ -73,6 +74,7 @@ def parse_vspec(path, specs):
         elif mode == "before": cur.before.append((arg, t))
         elif mode == "loop": cur.loops[int(arg)] = t
         elif mode == "loopbody": cur.loopbody[int(arg)] = t
+        elif mode == "closure": cur.closures[int(arg)] = t
         elif mode == "loopend": cur.loopend[int(arg)] = t
         elif mode == "attr": cur.attrs.append(t)
         buf = []; mode = None; arg = None
@@ -102,7 +104,7 @@ def parse_vspec(path, specs):
                 key = (cur_file, impl, m.group(2))
                 if key in specs.fns: raise ExtractError("%s:%d: duplicate @fn %s" % (path, ln, key))
                 specs.fns[key] = cur
-            elif d in ("@requires", "@ensures", "@after", "@before", "@loop", "@loopbody", "@loopend"):
+            elif d in ("@requires", "@ensures", "@after", "@before", "@loop", "@loopbody", "@loopend", "@closure"):
                 mode = d[1:]; arg = rest
             elif d in ("@entry", "@tail", "@attr"):
                 mode = d[1:]
@@ -667,6 +669,7 @@ class FileEmitter:
                         raise ExtractError("call site needs contract: %s fn %s has %d Key::from(<slice>) call(s) but its contract declares keyfrom=%d (DESIGN 1.2)" % (self.rel, it.name, nkf, declared))
                     b = rule_fold(ctx, self.rel, b)
                     b = rule_body_text(ctx, self.rel, b)
+                    b = self.rule_lift(b, spec, it)
                     b = self.weave_body(b, spec, it)
                 self.out.add(indent + b + "\n\n", dict(meta_base, part="body"))
         self.dropped_hints = getattr(self, "dropped_hints", [])
@@ -678,6 +681,34 @@ class FileEmitter:
                              "labels": [l for l, _ in (spec.requires + spec.ensures)] if spec else [],
                              "ens_labels": [l for l, _ in spec.ensures] if spec else [],
                              "ens_texts": [(l, t) for l, t in spec.ensures] if spec else []})
+
+    def rule_lift(self, b, spec, it):
+        """R-lift: non-capturing closure literal `&|a, b| { BODY }` passed where a `&'static ValidatorFn` is expected ->
+        `&__ClosureN` with `impl ValidatorFn for __ClosureN { fn call(&self, a: &str, b: &Value) -> .. BODY }` (defunctionalisation)."""
+        n = 0
+        while True:
+            m = re.search(r"&\|(\w+), (\w+)\| \{", b)
+            if not m: break
+            ob = m.end() - 1
+            cb = find_matching(b, ob)
+            body = b[ob:cb + 1]
+            a1 = "_key" if m.group(1) == "_" else m.group(1); a2 = m.group(2)
+            name = "__Closure%d_%s" % (n, re.sub(r"\W", "_", os.path.basename(self.rel)[:-3]))
+            if self.rel.endswith("paseto_parser.rs"):
+                body2 = re.sub(r"\bif (\w+) <= (\w+) \{", r"if \1.le(&\2) {", body)
+                if body2 != body: self.ctx.log("R-le", self.rel, it.line, "a <= b on OffsetDateTime", "a.le(&b)"); body = body2
+            verdict = (spec.closures.get(n) if spec else None) or "true"
+            lab = spec.opts.get("closure%d" % n) if spec else None
+            self.extra.append("pub struct %s;\nimpl ValidatorFn for %s {\n    open spec fn verdict(&self, key: Seq<char>, value: Value) -> bool {\n%s\n    }\n"
+                              "    fn call(&self, %s: &str, %s: &Value) -> (r: Result<(), PasetoClaimError>)\n%s\n}\n" % (name, name, verdict, a1, a2, body))
+            self.ctx.fn_index.append({"file": self.rel, "impl": "impl ValidatorFn for " + name, "fn": "call", "line": it.line, "external_body": False, "stubbed": False,
+                                      "body_hash": hashlib.sha1(re.sub(r"\s+", " ", body).encode()).hexdigest()[:16], "hints_dropped": [], "body_text": re.sub(r"\s+", " ", body)[:6000],
+                                      "contract": True, "safety": spec.safety if spec else [], "labels": [lab] if lab else [],
+                                      "ens_labels": [lab] if lab else [], "ens_texts": [(lab, verdict)] if lab else []})
+            self.ctx.log("R-lift", self.rel, it.line, b[m.start():m.start() + 60], "&" + name)
+            b = b[:m.start()] + "&" + name + b[cb + 1:]
+            n += 1
+        return b
 
     def disp_spec(self, parent, body):
         """R-display: write!(f, "{}", self.F) -> DispSpec impl delegating to F"""
